@@ -223,6 +223,12 @@ def install_pool():
         if hook is not None:
             hook(self, begin)
     _set(P.Pool, '_maintain_pool', _maintain)
+    orig_repop = P.Pool._repopulate_pool
+
+    def _repopulate(self, exitcodes):
+        state.K.record('repopulate', tuple(exitcodes or ()), self._processes - len(self._pool), self._state)
+        return orig_repop(self, exitcodes)
+    _set(P.Pool, '_repopulate_pool', _repopulate)
     orig_create = P.Pool._create_worker_process
 
     def _create(self, i):
